@@ -401,7 +401,7 @@ fn tier(name: &str) -> Tier {
 /// be named outside the crate, hence a macro around `check_dump`.
 macro_rules! check_lir {
     ($drv:expr, $rep:expr, $src:expr, $rt:expr, $input:expr) => {{
-        let dump = roto::verif_hooks::c12::lir_dump(FileTree::test_file("c12.roto", $src, 0), $rt)
+        let dump = roto::verif_hooks::c12::lir_dump_kinds(FileTree::test_file("c12.roto", $src, 0), $rt)
             .map_err(|e| format!("{e}"));
         check_dump($drv, $rep, $src, dump, $input, || {
             roto::verif_hooks::c12::lir_text(FileTree::test_file("c12.roto", $src, 0), $rt).unwrap_or_default()
@@ -409,24 +409,30 @@ macro_rules! check_lir {
     }};
 }
 
-fn check_dump(drv: &mut Driver, rep: &mut Report, src: &str, dump: Result<String, String>, input: &Value, text: impl FnOnce() -> String) -> bool {
-    let dump = match dump {
+fn check_dump(drv: &mut Driver, rep: &mut Report, src: &str, dump: Result<(String, String), String>, input: &Value, text: impl FnOnce() -> String) -> bool {
+    let (dump, kinds) = match dump {
         Ok(d) => d,
         Err(e) => {
             rep.mismatch("generator produced a script that does not lower", json!({"case": input, "error": e}));
             return false;
         }
     };
-    let ans = drv.ask(&format!("c12 check {}", hex(&dump)));
+    let ans = drv.ask(&format!("c12 check {} {}", hex(&dump), hex(&kinds)));
     if let Some(rest) = ans.strip_prefix("ok ") {
         for kv in rest.split(' ') {
             if let Some((k, v)) = kv.split_once('=') {
                 let n: u64 = v.parse().unwrap_or(0);
-                *rep.histograms.entry("lir-checked".into()).or_default().entry(k.into()).or_insert(0) += n;
+                // `k.<Variant>`: instructions of that `lir::Instruction` kind that went through the checker
+                let (h, k) = match k.strip_prefix("k.") {
+                    Some(kind) => ("lir-kinds", kind),
+                    None => ("lir-checked", k),
+                };
+                *rep.histograms.entry(h.into()).or_default().entry(k.into()).or_insert(0) += n;
             }
         }
         true
-    } else if ans.starts_with("reject ") {
+    } else if ans.starts_with("reject ") || ans.starts_with("reject-call ") {
+        let call = ans.starts_with("reject-call ");
         let parts: Vec<&str> = ans.split(' ').collect();
         let unhex = |s: &str| -> String {
             (0..s.len() / 2)
@@ -436,14 +442,61 @@ fn check_dump(drv: &mut Driver, rep: &mut Report, src: &str, dump: Result<String
         };
         let text = text();
         rep.violation(
-            "generated code writes through an address that is not derived from a stack slot, the return pointer or a parameter (verified LIR checker rejects the item)",
-            "lir-nonlocal-write",
+            if call {
+                "generated code passes something that is not a call-local address to a pointer-typed parameter of a Roto function (the program-level check of the verified LIR checker rejects the call site)"
+            } else {
+                "generated code writes through an address that is not derived from a stack slot, the return pointer or a parameter (verified LIR checker rejects the item)"
+            },
+            if call { "lir-call-arg-not-local" } else { "lir-nonlocal-write" },
             json!({"case": input, "item": parts.get(1).map(|s| unhex(s)), "instr_index": parts.get(2), "instr": parts.get(3).map(|s| unhex(s)), "source": src, "lir": text}),
+        );
+        false
+    } else if ans.starts_with("bad-kind ") {
+        rep.mismatch(
+            "an instruction of the real LIR has a kind the generated kind list does not know, or the hook's opcode is not the shape that kind is classified as (Classify.shapeOf)",
+            json!({"case": input, "answer": ans, "source": src}),
         );
         false
     } else {
         rep.mismatch("Lean driver cannot parse the structured LIR dump", json!({"case": input, "answer": ans, "source": src}));
         false
+    }
+}
+
+/// Class representatives of the LIR model: small scripts that together contain
+/// every `lir::Instruction` kind of the generated kind list. Run FIRST in every
+/// tier, independent of the seed; every kind must go through the verified
+/// checker at least once (a kind no representative reaches is a mismatch: the
+/// model would claim a kind it never sees).
+const KIND_REPRESENTATIVES: &[(&str, &str)] = &[
+    ("scalar-arith", "fn main(x: u32) -> u32 {\n  let a = (x + 3) * 2 - 1;\n  let b = a / 3 + a % 5;\n  if a < b && !(a == 7) { b } else { a }\n}\n"),
+    ("signed-float", "fn main(x: i32) -> bool {\n  let y = -x;\n  let f = 2.5 / 0.5;\n  let g = -f;\n  if g < f { y < 3 } else { y >= 3 }\n}\n"),
+    ("strings", "fn tag(k: u32) -> String { GREETING + f\"#{k}\" }\nfn main(x: u32) -> String {\n  let s = \"a\" + tag(x);\n  if s == \"ahey#1\" { s + \"!\" } else { tag(x + BASE) }\n}\n"),
+    ("records-enums", "record P { a: u32, b: u32 }\nconst RC: P = P { a: 1, b: 2 };\nfn helper(p: P, k: u32) -> P { P { a: p.a + k, b: p.b } }\nfn main(x: u32) -> u32 {\n  let q = helper(RC, x);\n  let o: u32? = if q.a < 10 { Some(q.a) } else { None };\n  match o { Some(v) => v + 1, None => q.b }\n}\n"),
+    ("tokens", "fn main(x: u32) -> u32 {\n  let t = mk(x);\n  let u = t;\n  tk_id(u) + tick()\n}\n"),
+    ("ipaddr", "fn main(x: u32) -> bool {\n  let a = 1.2.3.4;\n  let b = 1.2.3.4;\n  if x < 3 { a == b } else { a == 10.0.0.1 }\n}\n"),
+    ("lists", "fn main(x: u32) -> u32 {\n  let l = [x, 2, 3];\n  l.push(x + 1);\n  let ls = [\"a\", \"b\"];\n  ls.push(\"c\");\n  let n = 0;\n  for e in l { n = n + e; }\n  n\n}\n"),
+];
+
+fn kind_representatives(rep: &mut Report) {
+    let mut drv = Driver::spawn().expect("lean driver");
+    let rt = make_runtime(Arc::new(AtomicU64::new(0)));
+    for (name, src) in KIND_REPRESENTATIVES {
+        let input = json!({"kind": "kind-representative", "name": name});
+        rep.hist("family", format!("kind-representative:{name}"));
+        check_lir!(&mut drv, rep, src, &rt, &input);
+        rep.evaluations += 1;
+    }
+    let all = drv.ask("c12 kinds");
+    let seen = rep.histograms.get("lir-kinds").cloned().unwrap_or_default();
+    let missing: Vec<&str> = all.split(' ').filter(|k| !k.is_empty() && !seen.contains_key(*k)).collect();
+    if all.is_empty() || all.starts_with("bad") {
+        rep.mismatch("Lean driver does not list the generated instruction kinds", json!({"answer": all}));
+    } else if !missing.is_empty() {
+        rep.mismatch(
+            "instruction kinds of the generated kind list that no class representative reaches (the model claims kinds it never sees on real LIR)",
+            json!({"missing": missing}),
+        );
     }
 }
 
@@ -1087,8 +1140,16 @@ fn main() {
         Some("dump") => {
             let rt = make_runtime(Arc::new(AtomicU64::new(0)));
             let t = FileTree::test_file("c12.roto", &a[2], 0);
-            match roto::verif_hooks::c12::lir_dump(t, &rt) {
-                Ok(d) => print!("{d}"),
+            match roto::verif_hooks::c12::lir_dump_kinds(t, &rt) {
+                Ok((d, k)) => {
+                    print!("{d}");
+                    let mut ks: Vec<&str> = k.lines().collect();
+                    ks.sort();
+                    ks.dedup();
+                    println!("KINDS {}", ks.join(" "));
+                    let mut drv = Driver::spawn().expect("lean driver");
+                    println!("DRIVER {}", drv.ask(&format!("c12 check {} {}", hex(&d), hex(&k))));
+                }
                 Err(e) => println!("ERROR {e}"),
             }
             if a.get(3).is_some() {
@@ -1162,6 +1223,7 @@ fn main() {
             // state shared between threads through the safe API: lists, registered
             // closures / constants, into_func closures (one worker process per case)
             let focus = share::parse_focus(arg_after(&a, "--focus"));
+            kind_representatives(&mut rep);
             share::run_pass(seed, &tiername, &focus, 0, 0, &mut rep, &mut vec![], None);
             probes(&repo, arg_after(&a, "--fn-bounds"), &mut rep);
             let t = tier(&tiername);
